@@ -429,7 +429,9 @@ class CDMachine(MachineBase):
         fault = op.get("fault") if op.get("fault") in simnet.FAULT_KINDS else None
         was_cached = attr in self.cached
         if fault and not was_cached:
-            self.net.arm(fault, op.get("nth", 0))
+            self.net.arm(fault, op.get("nth", 0), op.get("more"))
+            if op.get("more"):
+                CTX.probe("c20.several_network_faults_in_one_access")
         if op.get("gc"):
             gc.collect()
         mark = len(self.net.trace)
